@@ -179,6 +179,24 @@ def check_rtf_source():
     return r
 
 
+def check_epub_source():
+    """read_epub on one XHTML chapter built from the same source grammar (html.parser based _XhtmlTextExtractor)."""
+    E = _mod("epub_extractor")
+    from replay import c02_docs
+    r = Result()
+    for case, src, spec in TR.gen_html_sources():
+        if "<div>" not in src:
+            continue
+        body = src.split("<body>", 1)[1].rsplit("</body>", 1)[0].replace("<br>", "<br/>").replace("<img src=x>", '<img src="x"/>')
+        files = dict(c02_docs.EPUB_SKELETON)
+        files["OEBPS/c1.xhtml"] = '<?xml version="1.0"?><html xmlns="http://www.w3.org/1999/xhtml"><head><title>c1</title></head><body>' + body + "</body></html>"
+        res = list(E.read_epub(c02_docs._zip(files)))
+        out = "\n".join(x.get_full_text() for x in res)
+        ok, w = _cmp("epub_extractor.read_epub(...).get_full_text()", files["OEBPS/c1.xhtml"], out, spec)
+        r.add(case, ok, w)
+    return r
+
+
 def check_odp_slide():
     OP = _mod("open_office.odp_extractor")
     r = Result()
@@ -318,7 +336,7 @@ CHECKS = {
     "docx.paragraph": check_docx_paragraph, "docx.table": check_docx_table, "docx.body": check_docx_body,
     "odt.body": check_odt_body, "html.extract": check_html_body, "odf.element_text": check_odf_text,
     "ods.sheet": check_ods_sheet, "xlsx.format": check_xlsx_format, "xls.format": check_xls_format,
-    "dt.slides": check_dt_slides, "odp.slide": check_odp_slide, "html.source": check_html_source, "rtf.source": check_rtf_source, "odg.text": check_odg_text, "pptx.paragraphs": check_pptx_paragraphs,
+    "dt.slides": check_dt_slides, "odp.slide": check_odp_slide, "html.source": check_html_source, "rtf.source": check_rtf_source, "epub.source": check_epub_source, "odg.text": check_odg_text, "pptx.paragraphs": check_pptx_paragraphs,
 }
 
 
@@ -348,7 +366,7 @@ FUNC_OF_CHECK = {
     "odf.element_text": "_shared.py::element_text",
     "odg.text": "odg_extractor.py::_extract_full_text", "pptx.paragraphs": "pptx_extractor.py::_extract_text_from_paragraphs",
     "odp.slide": "odp_extractor.py::_extract_slide", "html.source": "html_extractor.py::read_html",
-    "rtf.source": "rtf_extractor.py::read_rtf",
+    "rtf.source": "rtf_extractor.py::read_rtf", "epub.source": "epub_extractor.py::read_epub",
 }
 
 # obligation id fragment -> (check, cases, kinds)
